@@ -1,6 +1,7 @@
 package checks
 
 import (
+	"bytes"
 	"crypto/x509"
 	"crypto/x509/pkix"
 	"encoding/asn1"
@@ -31,6 +32,8 @@ type chainDesc struct {
 	wrongKey map[int]bool
 	wrongDN  map[int]bool
 	permDN   map[int]bool // issuer name = the issuer's subject with its attributes in another order (another DER, same text)
+	utf8DN   map[int]bool // issuer name = the issuer's subject with its values as UTF8String instead of PrintableString (other DER, same text)
+	akiRoot  bool         // the root carries an authority key identifier that differs from its subject key identifier (legal, unusual)
 	badSig   map[int]bool // signature value of the certificate at this position corrupted after issuance (content untouched)
 	// structural operation applied after forging
 	structural string
@@ -44,7 +47,7 @@ type chainDesc struct {
 var caKeyCycle = []string{"p256-a", "p384-a", "rsa2048-a", "p256-b", "p384-b"}
 
 func newChainDesc(n int, leafKey string, p purposeKind) *chainDesc {
-	d := &chainDesc{n: n, wrongKey: map[int]bool{}, wrongDN: map[int]bool{}, permDN: map[int]bool{}, badSig: map[int]bool{}}
+	d := &chainDesc{n: n, wrongKey: map[int]bool{}, wrongDN: map[int]bool{}, permDN: map[int]bool{}, utf8DN: map[int]bool{}, badSig: map[int]bool{}}
 	for i := 0; i < n; i++ {
 		var t pki.Tmpl
 		switch {
@@ -166,6 +169,9 @@ func refChainOK(d *chainDesc, p purposeKind, withTime bool) (bool, string) {
 		if d.permDN[i] {
 			return false, fmt.Sprintf("pos %d issuer name is not the issuer's subject (same attributes, other order)", i)
 		}
+		if d.utf8DN[i] {
+			return false, fmt.Sprintf("pos %d issuer name is not the issuer's subject (same values, other string type)", i)
+		}
 		if d.badSig[i] {
 			return false, fmt.Sprintf("pos %d signature value corrupted", i)
 		}
@@ -218,6 +224,19 @@ func (d *chainDesc) forge() []*x509.Certificate {
 				cn = parent.X.Subject.CommonName
 			}
 			t.IssuerName = &pkix.Name{ExtraNames: []pkix.AttributeTypeAndValue{{Type: asn1.ObjectIdentifier{2, 5, 4, 3}, Value: cn}, {Type: asn1.ObjectIdentifier{2, 5, 4, 10}, Value: "verif"}}}
+		}
+		if d.utf8DN[i] {
+			cn := t.CN
+			if parent != nil {
+				cn = parent.X.Subject.CommonName
+			}
+			u := func(v string) asn1.RawValue { return asn1.RawValue{Class: 0, Tag: 12, Bytes: []byte(v)} }
+			t.IssuerName = &pkix.Name{ExtraNames: []pkix.AttributeTypeAndValue{{Type: asn1.ObjectIdentifier{2, 5, 4, 10}, Value: u("verif")}, {Type: asn1.ObjectIdentifier{2, 5, 4, 3}, Value: u(cn)}}}
+		}
+		if d.akiRoot && i == d.n-1 {
+			// authorityKeyIdentifier { keyIdentifier [0] 20 bytes } that is not the subject key identifier
+			aki := append([]byte{0x30, 0x16, 0x80, 0x14}, bytes.Repeat([]byte{0xa5}, 20)...)
+			t.Extra = append(t.Extra, pkix.Extension{Id: asn1.ObjectIdentifier{2, 5, 29, 35}, Value: aki})
 		}
 		certs[i] = pki.Issue(t, pki.K(d.keys[i]), parent, signer)
 		if d.badSig[i] {
@@ -319,6 +338,7 @@ func chainMods(n int, p purposeKind) (viol []chainMod, benign []chainMod) {
 		v(fmt.Sprintf("issuer-name-mismatch@%d", i), i, func(d *chainDesc) { d.wrongDN[i] = true })
 		v(fmt.Sprintf("issuer-name-attributes-reordered@%d", i), i, func(d *chainDesc) { d.permDN[i] = true })
 		v(fmt.Sprintf("signature-value-corrupted@%d", i), i, func(d *chainDesc) { d.badSig[i] = true })
+		v(fmt.Sprintf("issuer-name-values-as-utf8string@%d", i), i, func(d *chainDesc) { d.utf8DN[i] = true })
 	}
 	// leaf
 	v("leaf-is-ca", 0, func(d *chainDesc) { d.tm[0].CA = true })
@@ -420,12 +440,16 @@ func chainMods(n int, p purposeKind) (viol []chainMod, benign []chainMod) {
 		} else {
 			b(fmt.Sprintf("ca-ku-noncritical@%d", i), i, func(d *chainDesc) { d.tm[i].KUNonCrit = true })
 		}
+		v(fmt.Sprintf("ca-ku-present-but-empty@%d", i), i, func(d *chainDesc) { d.tm[i].KeyUsage = 0 })
 		v(fmt.Sprintf("ca-ku-crlsign-only@%d", i), i, func(d *chainDesc) { d.tm[i].KeyUsage = x509.KeyUsageCRLSign })
 		v(fmt.Sprintf("ca-ku-digsig-only@%d", i), i, func(d *chainDesc) { d.tm[i].KeyUsage = x509.KeyUsageDigitalSignature })
 		b(fmt.Sprintf("ca-ku-extra-bits@%d", i), i, func(d *chainDesc) {
 			d.tm[i].KeyUsage = x509.KeyUsageCertSign | x509.KeyUsageCRLSign | x509.KeyUsageDigitalSignature
 		})
 		b(fmt.Sprintf("ca-ku-certsign-only@%d", i), i, func(d *chainDesc) { d.tm[i].KeyUsage = x509.KeyUsageCertSign })
+	}
+	if n >= 2 {
+		b("root-authority-key-id-differs-from-its-subject-key-id", n-1, func(d *chainDesc) { d.akiRoot = true })
 	}
 	// signing time (code signing only)
 	if p == purposeCS {
